@@ -87,6 +87,7 @@ type Sim struct {
 	Closes       int
 	Env          Chooser
 	Status       [11]uint32
+	StatusRaw    []byte // when non-nil: the AUDIT_GET reply payload verbatim (any length)
 	Rules        [][]byte
 	Verdicts     []int // errno menu for the verdict choice (index 0 = default = 0)
 	nextID       int
@@ -172,6 +173,9 @@ func (s *Sim) Send(msg syscall.NetlinkMessage) (uint32, error) {
 	switch req.Type {
 	case AuditGet:
 		st := s.StatusBytes()
+		if s.StatusRaw != nil {
+			st = s.StatusRaw
+		}
 		s.enqueue("data", req.Seq, append(hdr(HdrLen+len(st), AuditGet, 0, req.Seq, req.Pid), st...))
 	case AuditListRules:
 		for _, r := range s.Rules {
